@@ -32,11 +32,20 @@ func (e *AccessorExpr) Evaluate(engine *Engine, input interface{}, args []*State
 
 	// If it is a slice we need to Evaluate each one.
 	if in.Kind() == reflect.Slice {
-		t := TypeOfSliceElement(input)
-		if t.Kind() == reflect.Ptr {
-			t = t.Elem()
+		var returnType reflect.Type
+		if t := TypeOfSliceElement(input); t != nil {
+			if t.Kind() == reflect.Ptr {
+				t = t.Elem()
+			}
+			returnType = e.getReturnType(accessor, reflect.New(t).Interface())
 		}
-		returnType := e.getReturnType(accessor, reflect.New(t).Interface())
+
+		// The element type does not always tell us what the accessor returns
+		// (a slice of interfaces, or an accessor that does not exist). Each
+		// element is evaluated on its own and reports its own error.
+		if returnType == nil {
+			returnType = reflect.TypeOf((*interface{})(nil)).Elem()
+		}
 
 		results := reflect.MakeSlice(reflect.SliceOf(returnType), 0, 0)
 
@@ -46,7 +55,17 @@ func (e *AccessorExpr) Evaluate(engine *Engine, input interface{}, args []*State
 				return nil, err
 			}
 
-			results = reflect.Append(results, reflect.ValueOf(result))
+			value := reflect.ValueOf(result)
+			if !value.IsValid() || !value.Type().AssignableTo(returnType) {
+				if result != nil {
+					return nil, fmt.Errorf("%s returned %s, expected %s",
+						e.Query, value.Type(), returnType)
+				}
+
+				value = reflect.Zero(returnType)
+			}
+
+			results = reflect.Append(results, value)
 		}
 
 		return results.Interface(), nil
